@@ -23,6 +23,9 @@ CHECKS = {
     "C14": dict(cat="model_checking", ref="DESIGN 8/C14",
                 text="TLC explores all histories of edit operations (Edit.tla: Impl transcription as step, EditPost contract on every transition) over every level and every ordered (P,S) choice from seed states recorded from the code; every generated state is replayed into real SCFG objects and compared (0 drift on the unchanged tree); transitions the code does not reproduce, and every edit-primitive call made by the real pipeline on the restructure domain, are judged by TLC against the contract on the real pre/post states (EditTrace.tla).",
                 technique="TLC model checking of edit histories (Impl => Post), replay of TLC behaviours into the implementation, trace validation of recorded primitive calls"),
+    "C15": dict(cat="model_checking", ref="DESIGN 8/C15",
+                text="Write-read-write-read chains through to_dict/from_dict and to_yaml/from_yaml are recorded after every stage of every behaviour (plain and bytecode blocks, flat and restructured); TLC (RoundTrip.tla) checks that the re-read graph is the same abstract state (types, payload, ordered successors, back edges, tables, assignments, nesting, header, exiting, recorded parents), that the second dictionary equals the first and that the second read equals the first.",
+                technique="TLA+ stuttering contract (RoundTrip.tla) evaluated by TLC on round trips recorded from the implementation"),
     "C16": dict(cat="model_checking", ref="DESIGN 8/C16",
                 text="After every stage of every behaviour, list(scfg) and the concealed view of the root and of every sub-region at every depth are recorded and checked by TLC against the contract IterOK / ViewOK (Props.tla).",
                 technique="TLA+ contract predicates evaluated by TLC on observations recorded from the implementation (trace validation, exhaustive small scope)"),
